@@ -89,7 +89,8 @@ ANCHORS = {
     },
     "C12": {
         NML: ["Segment.length", "Segment.volume", "Segment.surface_area", "Cell.get_segment_length",
-              "Cell.get_segment_surface_area", "Cell.get_segment_volume", "Cell.get_actual_proximal", "Cell.get_segment"],
+              "Cell.get_segment_surface_area", "Cell.get_segment_volume", "Cell.get_actual_proximal", "Cell.get_segment",
+              "Point3DWithDiam.distance_to"],
     },
     "C13": {
         NML: ["Cell.get_actual_proximal", "Cell.get_ordered_segments_in_groups", "Cell.get_segment_adjacency_list",
